@@ -200,7 +200,11 @@ def interval_GetIntervalList (points : (List interval_IntervalPoint)) : Option (
   | GoSem.Flow.next (list, startedStack, start) =>
     pure (some list)
 
--- NOT TRANSLATED: interval_Normalize (interval/interval.go:372): call of github.com/ilius/libgostarcal/interval.IntervalList.isSortedByStart (not in the list of translated functions)
+/-- interval/interval.go:331 -/
+def interval_Normalize (list : (List interval_Interval)) : Option (Option (List interval_Interval)) := do
+  let points ← (interval_GetPointList list 0)
+  let points ← SrcExt.sortWith interval_Less points
+  (interval_GetIntervalList points)
 
 /-- interval/interval.go:265 -/
 def interval_Humanize (list : (List interval_Interval)) : Option (List interval_Interval) := do
@@ -233,6 +237,92 @@ def interval_Humanize (list : (List interval_Interval)) : Option (List interval_
       | GoSem.Flow.ret _v => nomatch _v
       | GoSem.Flow.next newList =>
         pure newList
+
+/-- interval/interval.go:337 -/
+def interval_Extract (list : (List interval_Interval)) : Option (List Int) := do
+  let count := (0 : Int)
+  let _r1 ← GoSem.forFold (ρ := Empty) (fun count _i interval => do
+      let count := (count + ((interval).End - (interval).Start))
+      if (interval).ClosedEnd then
+        let count := (count + 1)
+        pure (GoSem.Flow.next count)
+      else
+        pure (GoSem.Flow.next count)
+    ) list 0 count
+  match _r1 with
+  | GoSem.Flow.ret _v => nomatch _v
+  | GoSem.Flow.next count =>
+    let extList ← (GoSem.mkCap (α := Int) count)
+    let _r3 ← GoSem.forFold (ρ := Empty) (fun extList _i interval_1 => do
+        let _r2 ← GoSem.forCount (ρ := Empty) (fun extList pos => do
+            let extList := (extList ++ [pos])
+            pure (GoSem.Flow.next extList)
+          ) (interval_1).Start (interval_1).End extList
+        match _r2 with
+        | GoSem.Flow.ret _v => nomatch _v
+        | GoSem.Flow.next extList =>
+          if (interval_1).ClosedEnd then
+            let extList := (extList ++ [(interval_1).End])
+            pure (GoSem.Flow.next extList)
+          else
+            pure (GoSem.Flow.next extList)
+      ) list 0 extList
+    match _r3 with
+    | GoSem.Flow.ret _v => nomatch _v
+    | GoSem.Flow.next extList =>
+      pure extList
+
+/-- interval/interval.go:463 -/
+def interval_IntervalListByNumList (nums : (List Int)) (minCount : Int) : Option (List interval_Interval) := do
+  let list ← (GoSem.mkCap (α := interval_Interval) ((nums).length : Int))
+  let tmpNums ← (GoSem.mkCap (α := Int) ((nums).length : Int))
+  let _r3 ← GoSem.forFold (ρ := Empty) (fun (list, tmpNums) _i num => do
+      let _c1 ← (do if (decide (((tmpNums).length : Int) > 0)) then pure (decide ((num - (← (GoSem.idx tmpNums (((tmpNums).length : Int) - 1)))) ≠ 1)) else pure false)
+      let (list, tmpNums) ← (do
+        if _c1 then
+          let list ← (do
+            if (decide (((tmpNums).length : Int) > minCount)) then
+              let list := (list ++ [({ Start := (← (GoSem.idx tmpNums 0)), End := (← (GoSem.idx tmpNums (((tmpNums).length : Int) - 1))), ClosedEnd := true } : interval_Interval)])
+              pure list
+            else
+              let _r2 ← GoSem.forFold (ρ := Empty) (fun list _i x => do
+                  let list := (list ++ [({ Start := x, End := x, ClosedEnd := true } : interval_Interval)])
+                  pure (GoSem.Flow.next list)
+                ) tmpNums 0 list
+              match _r2 with
+              | GoSem.Flow.ret _v => nomatch _v
+              | GoSem.Flow.next list =>
+                pure list
+            )
+          let tmpNums := ([] : (List Int))
+          pure (list, tmpNums)
+        else
+          pure (list, tmpNums)
+        )
+      let tmpNums := (tmpNums ++ [num])
+      pure (GoSem.Flow.next (list, tmpNums))
+    ) nums 0 (list, tmpNums)
+  match _r3 with
+  | GoSem.Flow.ret _v => nomatch _v
+  | GoSem.Flow.next (list, tmpNums) =>
+    let list ← (do
+      if (decide (((tmpNums).length : Int) > 0)) then
+        if (decide (((tmpNums).length : Int) > minCount)) then
+          let list := (list ++ [({ Start := (← (GoSem.idx tmpNums 0)), End := (← (GoSem.idx tmpNums (((tmpNums).length : Int) - 1))), ClosedEnd := true } : interval_Interval)])
+          pure list
+        else
+          let _r4 ← GoSem.forFold (ρ := Empty) (fun list _i num_1 => do
+              let list := (list ++ [({ Start := num_1, End := num_1, ClosedEnd := true } : interval_Interval)])
+              pure (GoSem.Flow.next list)
+            ) tmpNums 0 list
+          match _r4 with
+          | GoSem.Flow.ret _v => nomatch _v
+          | GoSem.Flow.next list =>
+            pure list
+      else
+        pure list
+      )
+    pure list
 
 /-- cal_types/julian/julian.go:114 -/
 def julian_IsLeap (year : Int) : Option Bool := do
@@ -791,6 +881,12 @@ def interval_GetIntervalList_chk (points : (List interval_IntervalPoint)) : Opti
   | GoSem.Flow.next (list, startedStack, start) =>
     pure (some list)
 
+/-- interval/interval.go:331 -/
+def interval_Normalize_chk (list : (List interval_Interval)) : Option (Option (List interval_Interval)) := do
+  let points ← (interval_GetPointList_chk list 0)
+  let points ← SrcExt.sortWith interval_Less points
+  (interval_GetIntervalList_chk points)
+
 /-- interval/interval.go:265 -/
 def interval_Humanize_chk (list : (List interval_Interval)) : Option (List interval_Interval) := do
   let closedEndCount := (0 : Int)
@@ -822,6 +918,92 @@ def interval_Humanize_chk (list : (List interval_Interval)) : Option (List inter
       | GoSem.Flow.ret _v => nomatch _v
       | GoSem.Flow.next newList =>
         pure newList
+
+/-- interval/interval.go:337 -/
+def interval_Extract_chk (list : (List interval_Interval)) : Option (List Int) := do
+  let count := (0 : Int)
+  let _r1 ← GoSem.forFold (ρ := Empty) (fun count _i interval => do
+      let count ← (GoSem.chk64 (count + (← (GoSem.chk64 ((interval).End - (interval).Start)))))
+      if (interval).ClosedEnd then
+        let count ← (GoSem.chk64 (count + 1))
+        pure (GoSem.Flow.next count)
+      else
+        pure (GoSem.Flow.next count)
+    ) list 0 count
+  match _r1 with
+  | GoSem.Flow.ret _v => nomatch _v
+  | GoSem.Flow.next count =>
+    let extList ← (GoSem.mkCap (α := Int) count)
+    let _r3 ← GoSem.forFold (ρ := Empty) (fun extList _i interval_1 => do
+        let _r2 ← GoSem.forCount (ρ := Empty) (fun extList pos => do
+            let extList := (extList ++ [pos])
+            pure (GoSem.Flow.next extList)
+          ) (interval_1).Start (interval_1).End extList
+        match _r2 with
+        | GoSem.Flow.ret _v => nomatch _v
+        | GoSem.Flow.next extList =>
+          if (interval_1).ClosedEnd then
+            let extList := (extList ++ [(interval_1).End])
+            pure (GoSem.Flow.next extList)
+          else
+            pure (GoSem.Flow.next extList)
+      ) list 0 extList
+    match _r3 with
+    | GoSem.Flow.ret _v => nomatch _v
+    | GoSem.Flow.next extList =>
+      pure extList
+
+/-- interval/interval.go:463 -/
+def interval_IntervalListByNumList_chk (nums : (List Int)) (minCount : Int) : Option (List interval_Interval) := do
+  let list ← (GoSem.mkCap (α := interval_Interval) ((nums).length : Int))
+  let tmpNums ← (GoSem.mkCap (α := Int) ((nums).length : Int))
+  let _r3 ← GoSem.forFold (ρ := Empty) (fun (list, tmpNums) _i num => do
+      let _c1 ← (do if (decide (((tmpNums).length : Int) > 0)) then pure (decide ((← (GoSem.chk64 (num - (← (GoSem.idx tmpNums (← (GoSem.chk64 (((tmpNums).length : Int) - 1)))))))) ≠ 1)) else pure false)
+      let (list, tmpNums) ← (do
+        if _c1 then
+          let list ← (do
+            if (decide (((tmpNums).length : Int) > minCount)) then
+              let list := (list ++ [({ Start := (← (GoSem.idx tmpNums 0)), End := (← (GoSem.idx tmpNums (← (GoSem.chk64 (((tmpNums).length : Int) - 1))))), ClosedEnd := true } : interval_Interval)])
+              pure list
+            else
+              let _r2 ← GoSem.forFold (ρ := Empty) (fun list _i x => do
+                  let list := (list ++ [({ Start := x, End := x, ClosedEnd := true } : interval_Interval)])
+                  pure (GoSem.Flow.next list)
+                ) tmpNums 0 list
+              match _r2 with
+              | GoSem.Flow.ret _v => nomatch _v
+              | GoSem.Flow.next list =>
+                pure list
+            )
+          let tmpNums := ([] : (List Int))
+          pure (list, tmpNums)
+        else
+          pure (list, tmpNums)
+        )
+      let tmpNums := (tmpNums ++ [num])
+      pure (GoSem.Flow.next (list, tmpNums))
+    ) nums 0 (list, tmpNums)
+  match _r3 with
+  | GoSem.Flow.ret _v => nomatch _v
+  | GoSem.Flow.next (list, tmpNums) =>
+    let list ← (do
+      if (decide (((tmpNums).length : Int) > 0)) then
+        if (decide (((tmpNums).length : Int) > minCount)) then
+          let list := (list ++ [({ Start := (← (GoSem.idx tmpNums 0)), End := (← (GoSem.idx tmpNums (← (GoSem.chk64 (((tmpNums).length : Int) - 1))))), ClosedEnd := true } : interval_Interval)])
+          pure list
+        else
+          let _r4 ← GoSem.forFold (ρ := Empty) (fun list _i num_1 => do
+              let list := (list ++ [({ Start := num_1, End := num_1, ClosedEnd := true } : interval_Interval)])
+              pure (GoSem.Flow.next list)
+            ) tmpNums 0 list
+          match _r4 with
+          | GoSem.Flow.ret _v => nomatch _v
+          | GoSem.Flow.next list =>
+            pure list
+      else
+        pure list
+      )
+    pure list
 
 /-- cal_types/julian/julian.go:114 -/
 def julian_IsLeap_chk (year : Int) : Option Bool := do
@@ -1205,6 +1387,6 @@ def hijri_GetMonthLen_chk (year : Int) (month : Int) : Option Int := do
       pure 29
 
 /-- the functions translated on this run -/
-def translated : List String := ["utils_Mod", "utils_Div", "utils_Divmod", "utils_IntMin", "utils_GetHmsBySeconds", "utils_MonthListIsValid", "utils_DayListIsValid", "utils_WeekDayListIsValid", "lib_GetTotalSeconds", "lib_GetFloatHour", "lib_FloatHourToHMS", "lib_toUint8", "lib_HMS_IsValid", "lib_Date_IsValid", "interval_Less", "interval_GetPointList", "interval_GetIntervalList", "interval_Humanize", "stack_Push", "stack_Pop", "julian_IsLeap", "julian_getYearDays", "julian_getMonthDayFromYdays", "julian_ToJd", "julian_JdTo", "julian_GetMonthLen", "jalali_IsLeap", "jalali_getMonthDayFromYdays", "jalali_ToJd", "jalali_JdTo", "jalali_GetMonthLen", "ethiopian_IsLeap", "ethiopian_ToJd", "ethiopian_JdTo", "ethiopian_GetMonthLen", "gprol_IsLeap", "gprol_ToJd", "gprol_JdTo", "gprol_GetMonthLen", "indian_IsLeap", "indian_ToJd", "indian_JdTo", "indian_GetMonthLen", "hijri_IsLeap", "hijri_ToJd", "hijri_JdTo", "hijri_GetMonthLen"]
+def translated : List String := ["utils_Mod", "utils_Div", "utils_Divmod", "utils_IntMin", "utils_GetHmsBySeconds", "utils_MonthListIsValid", "utils_DayListIsValid", "utils_WeekDayListIsValid", "lib_GetTotalSeconds", "lib_GetFloatHour", "lib_FloatHourToHMS", "lib_toUint8", "lib_HMS_IsValid", "lib_Date_IsValid", "interval_Less", "interval_GetPointList", "interval_GetIntervalList", "interval_Normalize", "interval_Humanize", "interval_Extract", "interval_IntervalListByNumList", "stack_Push", "stack_Pop", "julian_IsLeap", "julian_getYearDays", "julian_getMonthDayFromYdays", "julian_ToJd", "julian_JdTo", "julian_GetMonthLen", "jalali_IsLeap", "jalali_getMonthDayFromYdays", "jalali_ToJd", "jalali_JdTo", "jalali_GetMonthLen", "ethiopian_IsLeap", "ethiopian_ToJd", "ethiopian_JdTo", "ethiopian_GetMonthLen", "gprol_IsLeap", "gprol_ToJd", "gprol_JdTo", "gprol_GetMonthLen", "indian_IsLeap", "indian_ToJd", "indian_JdTo", "indian_GetMonthLen", "hijri_IsLeap", "hijri_ToJd", "hijri_JdTo", "hijri_GetMonthLen"]
 
 end Starcal.Gen.Src
